@@ -154,7 +154,7 @@ func ruleR06ab(c *Ctx) {
 					if _, _, ok := m.appendCall(c, call); ok {
 						return
 					}
-					if isCallTo(call, m.readLogIK) {
+					if isCallTo(call, m.readLogIK) || returnsStoredLog(c, m, call, idx, 0) {
 						obl.expect(name+":replayed-log-is-persisted", pos, "a log answered without executing comes from Store.ReadLogWithIdempotencyKey")
 						return
 					}
@@ -191,10 +191,16 @@ func ruleR06ab(c *Ctx) {
 	oblB := newOblSet(c, "R06b")
 	defer oblB.flush()
 	nClose := 0
+	// a close event: a close(ch) instruction, or a call of a package function that only makes, closes and returns a
+	// channel (`closedChan()`), in which case the event is the call and the channel its result
+	type closeEvent struct {
+		fn  *ssa.Function
+		ins *ssa.Call
+		ch  ssa.Value
+	}
+	var events []closeEvent
+	ctors := map[*ssa.Function]bool{}
 	for _, fn := range m.fns {
-		if chanResultIdx(fnOrParentSig(fn)) < 0 {
-			continue
-		}
 		for _, b := range fn.Blocks {
 			for _, ins := range b.Instrs {
 				call, ok := ins.(*ssa.Call)
@@ -202,31 +208,48 @@ func ruleR06ab(c *Ctx) {
 					continue
 				}
 				bi, ok := call.Call.Value.(*ssa.Builtin)
-				if !ok || bi.Name() != "close" {
+				if !ok || bi.Name() != "close" || !isDoneChanType(call.Call.Args[0].Type()) {
 					continue
 				}
-				if !isDoneChanType(call.Call.Args[0].Type()) {
+				if isClosedChanConstructor(fn, call) {
+					ctors[fn] = true
 					continue
 				}
-				nClose++
-				k := fnName(fn) + ":close-of-done"
-				if fn.Parent() != nil && closurePassedToAppender(c, m, fn) {
-					oblB.expect(k, call.Pos(), "closed inside the callback handed to the batcher (runs after InsertLogs succeeded, R06c)")
+				if chanResultIdx(fnOrParentSig(fn)) < 0 {
 					continue
 				}
-				if guardedByFieldFact(c, fn, call, m.fDryRun, true) {
-					oblB.expect(k, call.Pos(), "closed on the DryRun edge (nothing is persisted, nothing to wait for)")
-					continue
-				}
-				// a fresh channel closed at once is legitimate only when it accompanies a log that is already
-				// persisted (found by idempotency key)
-				if pairedWithStoredLog(c, m, fn, call) {
-					oblB.expect(k, call.Pos(), "an already-closed channel returned together with a log read from the store")
-					continue
-				}
-				oblB.violate(k, call.Pos(), "the done channel is closed outside the batcher callback, outside the dry-run branch and not for a log read back from the store: waiters are released before the log is persisted", nil)
+				events = append(events, closeEvent{fn, call, call.Call.Args[0]})
 			}
 		}
+	}
+	for _, fn := range m.fns {
+		allCalls(fn, func(ci ssa.CallInstruction) {
+			if call, ok := ci.(*ssa.Call); ok {
+				if g := staticCallee(call); g != nil && ctors[g] {
+					events = append(events, closeEvent{fn, call, call})
+				}
+			}
+		})
+	}
+	for _, ev := range events {
+		fn, call := ev.fn, ev.ins
+		nClose++
+		k := fnName(fn) + ":close-of-done"
+		if fn.Parent() != nil && closurePassedToAppender(c, m, fn) {
+			oblB.expect(k, call.Pos(), "closed inside the callback handed to the batcher (runs after InsertLogs succeeded, R06c)")
+			continue
+		}
+		if guardedByFieldFact(c, fn, call, m.fDryRun, true) {
+			oblB.expect(k, call.Pos(), "closed on the DryRun edge (nothing is persisted, nothing to wait for)")
+			continue
+		}
+		// a fresh channel closed at once is legitimate only when it accompanies a log that is already
+		// persisted (found by idempotency key)
+		if pairedWithStoredLog(c, m, fn, ev.ch) {
+			oblB.expect(k, call.Pos(), "an already-closed channel returned together with a log read from the store")
+			continue
+		}
+		oblB.violate(k, call.Pos(), "the done channel is closed outside the batcher callback, outside the dry-run branch and not for a log read back from the store: waiters are released before the log is persisted", nil)
 	}
 	if nClose == 0 {
 		oblB.undecided("floor:close-sites", token.NoPos, "no close of a done channel found in package command")
@@ -244,8 +267,7 @@ func chainedLogResultIdx(sig *types.Signature) int {
 
 // pairedWithStoredLog: the channel closed by `closeCall` is returned by fn in the same return as a log
 // that comes from Store.ReadLogWithIdempotencyKey.
-func pairedWithStoredLog(c *Ctx, m *cmdModel, fn *ssa.Function, closeCall *ssa.Call) bool {
-	ch := closeCall.Call.Args[0]
+func pairedWithStoredLog(c *Ctx, m *cmdModel, fn *ssa.Function, ch ssa.Value) bool {
 	li, ci := chainedLogResultIdx(fn.Signature), chanResultIdx(fn.Signature)
 	if li < 0 || ci < 0 {
 		return false
@@ -898,4 +920,64 @@ func ruleR06g(c *Ctx) {
 	if n == 0 {
 		c.ok(rule, "completion-channels-carry-no-outcome", token.NoPos, "the completion channels of package command carry no value (chan struct{}): there is no outcome to lose")
 	}
+}
+
+
+// isClosedChanConstructor: fn makes a channel, closes it (closeCall) and returns it — and does nothing else with it.
+func isClosedChanConstructor(fn *ssa.Function, closeCall *ssa.Call) bool {
+	mk, ok := closeCall.Call.Args[0].(*ssa.MakeChan)
+	if !ok || mk.Parent() != fn || fn.Signature.Results().Len() != 1 || fn.Signature.Params().Len() != 0 {
+		return false
+	}
+	for _, r := range *mk.Referrers() {
+		switch u := r.(type) {
+		case *ssa.Return, *ssa.DebugRef:
+		case *ssa.Call:
+			if u != closeCall {
+				return false
+			}
+		default:
+			return false
+		}
+	}
+	return true
+}
+
+// returnsStoredLog: result idx of the call is, on every return of the (static, package) callee, nil or the log
+// read by Store.ReadLogWithIdempotencyKey.
+func returnsStoredLog(c *Ctx, m *cmdModel, call *ssa.Call, idx int, depth int) bool {
+	callee := staticCallee(call)
+	if callee == nil || fnPkgPath(callee) != pkgCommand || len(callee.Blocks) == 0 || depth > 3 {
+		return false
+	}
+	cells := resultCells(callee)
+	n := 0
+	okAll := true
+	check := func(v ssa.Value) {
+		if isNilConst(v) {
+			return
+		}
+		n++
+		for _, r := range roots(v, nil) {
+			if cl, i := resultOf(r); cl != nil && i == 0 && (isCallTo(cl, m.readLogIK) || returnsStoredLog(c, m, cl, i, depth+1)) {
+				return
+			}
+		}
+		okAll = false
+	}
+	for _, b := range callee.Blocks {
+		for _, ins := range b.Instrs {
+			switch x := ins.(type) {
+			case *ssa.Store:
+				if a, ok := x.Addr.(*ssa.Alloc); ok && cells[idx] == a {
+					check(x.Val)
+				}
+			case *ssa.Return:
+				if cells[idx] == nil && idx < len(x.Results) {
+					check(x.Results[idx])
+				}
+			}
+		}
+	}
+	return n > 0 && okAll
 }
